@@ -58,7 +58,7 @@ pub fn run(ctx: &Ctx, rep: &mut Report) {
         rep.begin_universe(uni);
         let hub_addr = b"axelar1hub".to_vec();
         let mut w = ItsWorld::new(&mut rng, b"stellar", &hub_addr, 3);
-        w.trust(b"ethereum");
+        w.trust(b"Ethereum-Sepolia");
         w.trust(b"gone");
         {
             let its = w.its.clone();
@@ -150,19 +150,19 @@ pub fn run(ctx: &Ctx, rep: &mut Report) {
             // now and then the usual destination loses (or regains) its trust right between two
             // requests toward it
             if rng.chance(1, 8) {
-                let now = w.model.trusted.contains(&b"ethereum".to_vec());
+                let now = w.model.trusted.contains(&b"Ethereum-Sepolia".to_vec());
                 let owner = w.owner.clone();
-                let o = w.do_set_trusted(b"ethereum", !now, Auth::Only(vec![owner]));
+                let o = w.do_set_trusted(b"Ethereum-Sepolia", !now, Auth::Only(vec![owner]));
                 rep.count("trust-flip-of-usual-destination");
                 if !o.ok() {
                     rep.foreign("trusted-chain-change-refused");
                     break;
                 }
                 if now {
-                    w.model.trusted.remove(&b"ethereum".to_vec());
+                    w.model.trusted.remove(&b"Ethereum-Sepolia".to_vec());
                 } else {
-                    w.model.trusted.insert(b"ethereum".to_vec());
-                    w.model.ever_trusted.insert(b"ethereum".to_vec());
+                    w.model.trusted.insert(b"Ethereum-Sepolia".to_vec());
+                    w.model.ever_trusted.insert(b"Ethereum-Sepolia".to_vec());
                 }
             }
             let canonical = rng.chance(1, 2);
@@ -170,7 +170,7 @@ pub fn run(ctx: &Ctx, rep: &mut Report) {
             let focus = *rng.pick(&["none", "none", "caller", "caller", "dest", "dest", "gas", "gas", "meta", "meta", "random"]);
             let dclass = if focus == "dest" || focus == "random" { *rng.pick(DESTS) } else { "trusted" };
             let dest: Vec<u8> = match dclass {
-                "trusted" => b"ethereum".to_vec(),
+                "trusted" => b"Ethereum-Sepolia".to_vec(),
                 "never-trusted" => b"polygon".to_vec(),
                 "removed" => b"gone".to_vec(),
                 _ => HUB_CHAIN.to_vec(),
